@@ -2,6 +2,8 @@ import HmfVerif.Real.Tactics
 import HmfVerif.Gen.ExprFits
 import HmfVerif.Proofs.ExprLemmas
 import Mathlib.Analysis.SpecialFunctions.Exp
+import Mathlib.Analysis.SpecialFunctions.Gaussian.GaussianIntegral
+import HmfVerif.Proofs.AnalysisFits
 /-!
 # C07 — fitting functions are pointwise, finite, non-negative, (PS) single-peaked and bounded
 
@@ -140,5 +142,72 @@ theorem PS_le_peak (opq) (ρ : String → ℝ) (hν : 0 ≤ ρ "nu2") :
   have e2 : (2 * 10 ^ (0:ℤ) / π : ℝ) = 2 / π := by norm_num
   rw [e1, e2, mul_assoc]
   exact mul_le_mul_of_nonneg_left h (sqrt_nonneg _)
+
+
+/-! ## Press–Schechter: limits, single peak, unit collapsed fraction (all on the generated term) -/
+section PSAnalysis
+open MeasureTheory Set Filter Topology
+
+/-- closed form of the generated PS term as a function of ν² -/
+theorem PS_closed (opq) (ρ : String → ℝ) :
+    evalR opq ρ Gen.Fits.PS_fsigma = sqrt (2 / π) * sqrt (ρ "nu2") * exp (-(ρ "nu2") / 2) := by
+  fit_unfold [Gen.Fits.PS_fsigma]
+  have e1 : (-5 * 10 ^ (-1:ℤ) * ρ "nu2" : ℝ) = -(ρ "nu2") / 2 := by norm_num; ring
+  have e2 : (2 * 10 ^ (0:ℤ) / π : ℝ) = 2 / π := by norm_num
+  rw [e1, e2]
+
+/-- C07 (PS): f → 0 as σ → 0 (ν² → ∞) -/
+theorem PS_tendsto_zero_small_sigma (opq) (ρ : String → ℝ) :
+    Tendsto (fun x : ℝ => evalR opq (Function.update ρ "nu2" x) Gen.Fits.PS_fsigma) atTop (𝓝 0) := by
+  simp only [PS_closed, Function.update_self]
+  have := AnalysisFits.sqrt_mul_exp_tendsto.const_mul (sqrt (2 / π))
+  simpa [mul_assoc] using this
+
+/-- C07 (PS): f → 0 as σ → ∞ (ν² → 0⁺) — in fact f is continuous with f(0) = 0 -/
+theorem PS_tendsto_zero_large_sigma (opq) (ρ : String → ℝ) :
+    Tendsto (fun x : ℝ => evalR opq (Function.update ρ "nu2" x) Gen.Fits.PS_fsigma) (𝓝 0) (𝓝 0) := by
+  simp only [PS_closed, Function.update_self]
+  have hc : Continuous (fun x : ℝ => sqrt (2 / π) * sqrt x * exp (-x / 2)) := by continuity
+  have := hc.tendsto 0
+  simpa using this
+
+/-- C07 (PS): the multiplicity integrates to one over all peak heights: ∫₀^∞ f(ν) dν/ν = 1 (ν² substituted into the
+    generated term) -/
+theorem PS_collapsed_fraction_one (opq) (ρ : String → ℝ) :
+    ∫ ν in Ioi (0:ℝ), evalR opq (Function.update ρ "nu2" (ν ^ 2)) Gen.Fits.PS_fsigma / ν = 1 := by
+  have h1 : ∀ ν ∈ Ioi (0:ℝ), evalR opq (Function.update ρ "nu2" (ν ^ 2)) Gen.Fits.PS_fsigma / ν
+      = sqrt (2/π) * exp (-(1/2) * ν^2) := by
+    intro ν hν
+    have hν' : (0:ℝ) < ν := hν
+    simp only [PS_closed, Function.update_self]
+    rw [Real.sqrt_sq hν'.le]
+    have : ν ≠ 0 := ne_of_gt hν'
+    field_simp
+  rw [setIntegral_congr_fun measurableSet_Ioi h1, integral_const_mul, integral_gaussian_Ioi]
+  have hpi : 0 < π := pi_pos
+  rw [show π / (1/2 : ℝ) = 2 * π by ring]
+  have h2 : sqrt (2/π) * sqrt (2*π) = 2 := by
+    rw [← sqrt_mul (by positivity), show (2 / π * (2 * π)) = 2^2 by field_simp, sqrt_sq (by norm_num)]
+  calc sqrt (2/π) * (sqrt (2*π) / 2) = (sqrt (2/π) * sqrt (2*π)) / 2 := by ring
+    _ = 1 := by rw [h2]; norm_num
+
+/-- C07 (PS): single-peaked — as a function of ν² the multiplicity rises on [0, 1] and falls on [1, ∞): the only turning point
+    is the peak at ν = 1 -/
+theorem PS_unimodal (opq) (ρ : String → ℝ) :
+    MonotoneOn (fun x : ℝ => evalR opq (Function.update ρ "nu2" x) Gen.Fits.PS_fsigma) (Set.Icc 0 1) ∧
+    AntitoneOn (fun x : ℝ => evalR opq (Function.update ρ "nu2" x) Gen.Fits.PS_fsigma) (Set.Ici 1) := by
+  simp only [PS_closed, Function.update_self]
+  have hc : 0 ≤ sqrt (2 / π) := sqrt_nonneg _
+  constructor
+  · intro a ha b hb hab
+    have := AnalysisFits.psShape_mono ha hb hab
+    simp only at this ⊢
+    rw [mul_assoc, mul_assoc]; exact mul_le_mul_of_nonneg_left this hc
+  · intro a ha b hb hab
+    have := AnalysisFits.psShape_anti ha hb hab
+    simp only at this ⊢
+    rw [mul_assoc, mul_assoc]; exact mul_le_mul_of_nonneg_left this hc
+
+end PSAnalysis
 
 end Hmf.C07
